@@ -96,6 +96,13 @@ def dense_obs(sc, system, f):
         hi = it.r(served.t1) if served is not None and hasattr(served, "t1") else 0
         rec = {"q": it.r(q), "lo": lo, "hi": hi, "kind": kind, "inRange": True,
                "vecAgree": bool(np.array_equal(vec[k], v)), "exact": True, "tolUnits": 0}
+        rec["outUnits"] = 0
+        if served is not None and hasattr(served, "t0") and hasattr(served, "t1"):
+            a_, b_ = sorted((num.frac(served.t0), num.frac(served.t1)))
+            fq = num.frac(q)
+            if not (a_ <= fq <= b_):
+                near = a_ if fq < a_ else b_
+                rec["outUnits"] = num.gap_units(q, near, [q, served.t0, served.t1], dt)
         if kind == "grid":
             rec["exact"] = bool(num.canon_bytes(v) == num.canon_bytes(y[i]))
             if rich:
@@ -217,7 +224,11 @@ def event_obs(sc, lg, system, f):
                     h = max(abs(a - b) for (a, b) in replaced if min(a, b) <= num.frac(te) <= max(a, b))
                     dmax = max(abs(num.frac(u) - num.frac(w)) for u, w in zip(np.asarray(sv).reshape(-1), np.asarray(ye).reshape(-1)))
                     ymax = max([Fraction(1)] + [abs(num.frac(w)) for w in np.asarray(ye).reshape(-1)])
-                    ysol = "exact" if dmax <= ymax * h ** 4 else "differs"
+                    # the landing sub-steps re-integrate the rolled-back step: they agree with the interpolant the event was located on
+                    # to the Hermite error (h^4) or, for a low-order adaptive pair, to the local error the controller admits
+                    from vf import twins
+                    adaptive_ok = sc.get("rtol") is not None and twins.tol_units(sv, ye, sc["rtol"], sc.get("atol") or sc["rtol"]) <= 10
+                    ysol = "exact" if (dmax <= ymax * h ** 4 or adaptive_ok) else "differs"
                 else:
                     ysol = "differs"
             except Exception:   # noqa
